@@ -271,3 +271,39 @@ class Main {
     );
   }
 }
+
+/// Verification hooks (H2): the individual source -> HIR -> MIR stage functions, so that a
+/// miscompilation can be localised to a stage. Compiled only with `--cfg samlang_verif`.
+#[cfg(samlang_verif)]
+pub mod verif_hooks {
+  use samlang_ast::{hir, mir};
+  use samlang_heap::{Heap, ModuleReference};
+
+  /// source -> HIR (generics preserved)
+  pub fn lower_to_hir(
+    heap: &mut Heap,
+    sources: &std::collections::HashMap<
+      ModuleReference,
+      samlang_ast::source::Module<std::sync::Arc<samlang_checker::type_::Type>>,
+    >,
+  ) -> hir::Sources {
+    super::hir_lowering::verif_compile_sources_with_generics_preserved(heap, sources)
+  }
+
+  /// demand-driven generics specialisation + enum layout choice
+  pub fn specialize(heap: &mut Heap, sources: hir::Sources) -> mir::Sources {
+    super::mir_generics_specialization::perform_generics_specialization(heap, sources)
+  }
+
+  pub fn deduplicate(sources: mir::Sources) -> mir::Sources {
+    super::mir_type_deduplication::deduplicate(sources)
+  }
+
+  pub fn eliminate_constant_params(sources: mir::Sources) -> mir::Sources {
+    super::mir_constant_param_elimination::rewrite_sources(sources)
+  }
+
+  pub fn tailrec_rewrite(heap: &mut Heap, function: mir::Function) -> mir::Function {
+    super::mir_tail_recursion_rewrite::optimize_function_by_tailrec_rewrite(heap, function)
+  }
+}
